@@ -67,6 +67,7 @@ class Extractor:
     # -- T1/T2
     def clean_item(self, text, keep_derive=("Clone", "Copy", "PartialEq", "Eq")):
         before = text
+        structural = bool(re.search(r"\benum\b", text)) and not re.search(r"\(|\{[^}]*:", text[text.find("enum"):])
         text = re.sub(r"\bpub(\((crate|super|self|in [^)]*)\))?\s+", "", text)               # T1
         text = re.sub(r"^[ \t]*///[^\n]*\n", "", text, flags=re.M)                            # T2 docs
         text = re.sub(r"^[ \t]*#\[(inline|must_use|cfg_attr|doc|allow|deny)[^\]]*\]\s*\n", "", text, flags=re.M)
@@ -74,6 +75,8 @@ class Extractor:
         def derive(m):
             names = [n.strip() for n in m.group(1).split(",")]
             kept = [n for n in names if n in keep_derive]
+            if "PartialEq" in kept and "Eq" in kept and structural:
+                kept.append("Structural")   # T7: derived equality of a field-less enum is structural equality
             return "#[derive(%s)]" % ", ".join(kept) if kept else ""
         text = re.sub(r"#\[derive\(([^)]*)\)\]", derive, text)
         if text != before:
